@@ -34,7 +34,9 @@
 //!   MissingExport      the requested export does not exist / is not a function
 //!   -> all of these are Ending::Fault { kind, at }
 //! Budgets: call depth -> StackExhausted; instruction / println count -> StepLimit;
-//! heap cell budget -> Harness("resource: ..."). Anything the interpreter does not implement
+//! heap cell budget -> Harness("resource: ..."); a println/panic string longer than
+//! HOST_STRING_LIMIT -> Harness("inconclusive: ...") because loader.js's `fromCharCode(...codes)`
+//! spread throws an engine-dependent RangeError around 125k arguments. Anything the interpreter does not implement
 //! (i64/f32/f64/simd arithmetic, exceptions, tail calls, array.new_elem ...) decodes to an
 //! `Unsupported` instruction that ends the run with Harness("unsupported: ...") only if executed.
 //!
@@ -52,6 +54,11 @@ use wasmparser::{
 
 /// arrays longer than this are refused the way an engine refuses over-large arrays
 pub const MAX_ARRAY_LEN: u32 = 1 << 27;
+/// loader.js builds the JS string with `String.fromCharCode(...codes)`; beyond roughly 125k
+/// arguments (node 20, default stack) the spread throws a RangeError, and the exact limit is
+/// engine / stack-size dependent. A host string longer than this constant therefore ends the run
+/// as inconclusive (`Ending::Harness("inconclusive: ...")`) instead of guessing either outcome.
+pub const HOST_STRING_LIMIT: usize = 100_000;
 /// total number of heap cells (fields / elements, bytes counted /8) one run may allocate
 pub const HEAP_CELL_BUDGET: u64 = 1 << 27;
 
@@ -920,7 +927,7 @@ fn decode_function(
   body: &FunctionBody,
 ) -> Result<(), String> {
   let es = |e: wasmparser::BinaryReaderError| e.to_string();
-  let (nparams, nresults) = (m.funcs[fidx].nparams, m.funcs[fidx].nresults);
+  let nresults = m.funcs[fidx].nresults;
   let mut local_defaults = Vec::new();
   let mut lr = body.get_locals_reader().map_err(es)?;
   for _ in 0..lr.get_count() {
@@ -1143,7 +1150,6 @@ fn decode_function(
   let f = &mut m.funcs[fidx];
   f.code = code;
   f.local_defaults = local_defaults;
-  let _ = nparams;
   Ok(())
 }
 
@@ -1601,6 +1607,12 @@ impl State {
     match v {
       Val::Obj(o) => match &self.heap[o as usize] {
         Obj::Arr8 { data, .. } => {
+          if data.len() > HOST_STRING_LIMIT {
+            return Err(Stop::Harness(format!(
+              "inconclusive: host string of {} code units is beyond loader.js's engine-dependent argument-spread limit",
+              data.len()
+            )));
+          }
           let mut s = String::with_capacity(data.len());
           for b in data {
             if *b < 0x80 {
@@ -2233,4 +2245,187 @@ fn exec(m: &Module, st: &mut State, entry: u32, limits: &Limits) -> Result<(), S
 #[inline(always)]
 fn m_table(st: &State, t: u32) -> Result<&Vec<Val>, Stop> {
   st.tables.get(t as usize).ok_or_else(|| internal("table index"))
+}
+
+// ---------------------------------------------------------------------------------------------
+// instantiate + run
+// ---------------------------------------------------------------------------------------------
+
+fn classify(m: &Module, st: &State, stop: Stop, during: &str) -> Ending {
+  let at = || {
+    let n = m.fname(st.cur_func);
+    if during.is_empty() { n } else { format!("{n} ({during})") }
+  };
+  match stop {
+    Stop::Panic(msg) => Ending::Panic(msg),
+    Stop::StepLimit => Ending::StepLimit,
+    Stop::StackExhausted => Ending::StackExhausted,
+    Stop::Harness(msg) => Ending::Harness(format!("{msg} [in {}]", at())),
+    Stop::Trap(kind @ ("IntegerDivideByZero" | "IntegerOverflow")) => Ending::ArithTrap(kind.to_string()),
+    Stop::Trap("Unreachable") => match m.vec_helpers {
+      Some(h) if h.contains(&st.cur_func) => Ending::VecBounds,
+      Some(_) => Ending::Fault { kind: "Unreachable".into(), at: at() },
+      None => Ending::Harness(format!(
+        "unreachable executed in {} but the Vec helper functions could not be identified",
+        at()
+      )),
+    },
+    Stop::Trap(kind) => Ending::Fault { kind: kind.to_string(), at: at() },
+  }
+}
+
+fn finish(st: State, ending: Ending) -> (Trace, WasmRunStats) {
+  let mut ub = UbFlags::default();
+  if matches!(ending, Ending::ArithTrap(_)) {
+    ub.div_zero = true;
+  }
+  let mut opcodes_seen = BTreeSet::new();
+  for (k, s) in st.seen.iter().enumerate() {
+    if *s && k < OP_NAMES.len() {
+      opcodes_seen.insert(OP_NAMES[k].to_string());
+    }
+  }
+  let stats = WasmRunStats {
+    instrs: st.steps,
+    max_depth: st.max_depth_seen,
+    opcodes_seen,
+    gc_allocs: st.heap.len() as u64,
+  };
+  (Trace { lines: st.lines, ending, ub, steps: st.steps }, stats)
+}
+
+fn fresh_state() -> State {
+  State {
+    stack: Vec::with_capacity(1 << 16),
+    frames: Vec::with_capacity(1 << 10),
+    heap: Vec::new(),
+    heap_cells: 0,
+    globals: Vec::new(),
+    tables: Vec::new(),
+    memory: Vec::new(),
+    memory_max_pages: 0,
+    has_memory: false,
+    data_dropped: Vec::new(),
+    lines: Vec::new(),
+    steps: 0,
+    max_depth_seen: 0,
+    seen: [false; 256],
+    cur_func: 0,
+  }
+}
+
+/// everything `new WebAssembly.Instance(module, { builtins })` does, minus the start function
+fn instantiate(m: &Module, st: &mut State) -> Result<(), Ending> {
+  let fault = |kind: &str, at: String| Ending::Fault { kind: kind.to_string(), at };
+  if let Some(imp) = &m.link_error {
+    return Err(fault("LinkError", format!("import {imp}")));
+  }
+  for g in &m.global_inits {
+    let v = match g {
+      GlobalInit::Const(v) => *v,
+      GlobalInit::Expr(code) => eval_const(code, &st.globals).map_err(Ending::Harness)?,
+    };
+    st.globals.push(v);
+  }
+  for t in &m.tables {
+    if t.initial > 10_000_000 {
+      return Err(Ending::Harness("resource: table larger than 10M entries".into()));
+    }
+    st.tables.push(vec![t.init; t.initial as usize]);
+  }
+  if let Some((initial, max)) = m.memory {
+    if initial > 4096 {
+      return Err(Ending::Harness("resource: initial memory larger than 256 MiB".into()));
+    }
+    st.has_memory = true;
+    st.memory = vec![0; initial as usize * 65536];
+    st.memory_max_pages = max.unwrap_or(65536);
+  }
+  for (k, e) in m.elems.iter().enumerate() {
+    if let Some((t, off)) = e.active {
+      let table = st.tables.get_mut(t as usize).ok_or_else(|| Ending::Harness("internal: elem table".into()))?;
+      let end = off as u64 + e.items.len() as u64;
+      if end > table.len() as u64 {
+        return Err(fault("OutOfBoundsTable", format!("element segment {k} (instantiate)")));
+      }
+      table[off as usize..end as usize].copy_from_slice(&e.items);
+    }
+  }
+  st.data_dropped = vec![false; m.datas.len()];
+  for (k, d) in m.datas.iter().enumerate() {
+    if let Some((mem, off)) = d.active {
+      let end = off as u64 + d.bytes.len() as u64;
+      if mem != 0 || !st.has_memory || end > st.memory.len() as u64 {
+        return Err(fault("OutOfBoundsMemory", format!("data segment {k} (instantiate)")));
+      }
+      st.memory[off as usize..end as usize].copy_from_slice(&d.bytes);
+      st.data_dropped[k] = true;
+    }
+  }
+  Ok(())
+}
+
+/// Validate, instantiate like loader.js, run the start function, then call `export_name()`.
+pub fn run(bytes: &[u8], export_name: &str, limits: &Limits) -> (Trace, WasmRunStats) {
+  let mut st = fresh_state();
+  if let Err(e) = validate(bytes) {
+    return finish(st, Ending::Fault { kind: "InvalidModule".into(), at: e });
+  }
+  let Parsed { subtypes, func_tys, bodies, module: mut m } = match parse_module(bytes) {
+    Ok(p) => p,
+    Err(e) => {
+      let e = if e.starts_with("unsupported") || e.starts_with("internal") { e } else { format!("parse: {e}") };
+      return finish(st, Ending::Harness(e));
+    }
+  };
+  let n_imp = m.n_imported_funcs as usize;
+  if bodies.len() + n_imp != m.funcs.len() {
+    return finish(st, Ending::Harness("internal: function / code section count mismatch".into()));
+  }
+  for (k, body) in bodies.iter().enumerate() {
+    if let Err(e) = decode_function(&mut m, &subtypes, &func_tys, n_imp + k, body) {
+      let name = m.fname((n_imp + k) as u32);
+      return finish(st, Ending::Harness(format!("{e} [decoding {name}]")));
+    }
+  }
+  m.vec_helpers = find_vec_helpers(&m);
+  let m = m;
+
+  if let Err(ending) = instantiate(&m, &mut st) {
+    return finish(st, ending);
+  }
+  if let Some(s) = m.start {
+    if let Err(stop) = exec(&m, &mut st, s, limits) {
+      let ending = classify(&m, &st, stop, "start");
+      return finish(st, ending);
+    }
+  }
+  let entry = match m.exports.get(export_name) {
+    Some((ExternalKind::Func | ExternalKind::FuncExact, idx)) => *idx,
+    _ => {
+      return finish(st, Ending::Fault { kind: "MissingExport".into(), at: export_name.to_string() });
+    }
+  };
+  st.frames.clear();
+  match exec(&m, &mut st, entry, limits) {
+    Ok(()) => finish(st, Ending::Return),
+    Err(stop) => {
+      let ending = classify(&m, &st, stop, "");
+      finish(st, ending)
+    }
+  }
+}
+
+/// names of the functions in the module's name section, by index (diagnostics / calibration)
+pub fn function_names(bytes: &[u8]) -> Vec<(u32, String)> {
+  match parse_module(bytes) {
+    Ok(p) => p
+      .module
+      .funcs
+      .iter()
+      .enumerate()
+      .filter_map(|(i, f)| f.name.clone().map(|n| (i as u32, n)))
+      .collect(),
+    Err(_) => vec![],
+  }
 }
